@@ -29,7 +29,7 @@ RULE = ("two tables (pk,a,b), keys 1..3, values NULL/0..2; main and other start 
         "edits precede stash/checkout; non-trivial = at least one stash, reset or checkout succeeded with a dirty working set; distinct by case JSON")
 ASSUMPTIONS = ["tables are never created or dropped after the initial commit"]
 REQUIRED_TAGS = ["stash-ok", "stash-nochange", "pop-ok", "pop-conflict", "stash-pop-with-staged", "stash-pop-unstaged-only", "reset-hard", "reset-hard-to", "reset-soft",
-                 "reset-soft-t", "reset-soft-to", "checkout", "move-carry", "move-refused", "move-clean", "commit"]
+                 "reset-soft-t", "reset-soft-to", "checkout", "move-carry", "move-refused", "move-clean", "commit", "stash-bad-name-dirty", "move-both-dirty-refused"]
 KNOWN_KEY = "stash-pop:staged-modification-not-restaged"
 
 KEYS = [1, 2, 3]
@@ -48,7 +48,22 @@ def _edit(rng):
     return {"kind": "edit", "t": t, "rows": _rows(rng, t)}
 
 
+def gen_both_dirty(rng):
+    """both branches on the same commit, both with unstaged edits only, then a moving checkout: must be refused
+    unless the two working sets are identical"""
+    main = _rows(rng, 1, 1, 3) + _rows(rng, 2, 0, 2)
+    e1 = _edit(rng)
+    e2 = _edit(rng) if rng.random() < 0.85 else dict(e1)
+    ops = [e1, {"kind": "checkout", "b": "other"}, e2, {"kind": "checkout_move", "b": "main"}]
+    for _ in range(rng.randint(0, 3)):
+        ops.append(rng.choice([{"kind": "checkout", "b": rng.choice(["main", "other"])}, {"kind": "reset_soft"}, _edit(rng),
+                               {"kind": "checkout_move", "b": rng.choice(["main", "other"])}]))
+    return {"main": main, "other": list(main), "ops": ops}
+
+
 def gen_one(rng):
+    if rng.random() < 0.15:
+        return gen_both_dirty(rng)
     main = _rows(rng, 1, 1, 3) + _rows(rng, 2, 0, 2)
     other = list(main)
     if rng.random() < 0.8:
@@ -67,6 +82,8 @@ def gen_one(rng):
             ops.append({"kind": "addall"})
         elif r < 0.43:
             ops.append({"kind": "commit"})
+        elif r < 0.47:
+            ops.append({"kind": "stash_bad"})
         elif r < 0.58:
             ops.append({"kind": "stash"})
             q = rng.random()
@@ -122,7 +139,7 @@ def _op(o):
         return "%s %d" % ({"reset_hard_to": "ResetHardTo", "reset_soft_to": "ResetSoftTo"}[k], o["to"])
     if k in ("checkout", "checkout_move"):
         return "%s %s" % ("Checkout" if k == "checkout" else "CheckoutMove", cq_bool(o["b"] == "other"))
-    return {"addall": "AddAll", "commit": "Commit", "stash": "Stash", "pop": "Pop", "reset_hard": "ResetHard", "reset_soft": "ResetSoft"}[k]
+    return {"stash_bad": "StashBad", "addall": "AddAll", "commit": "Commit", "stash": "Stash", "pop": "Pop", "reset_hard": "ResetHard", "reset_soft": "ResetSoft"}[k]
 
 
 def _sobs(x):
@@ -161,6 +178,10 @@ def classify(case, out):
         prev = st[i - 1] if i > 0 else None
         if k == "stash":
             tags.add("stash-ok" if ok else "stash-nochange")
+        elif k == "stash_bad":
+            if not ok and prev is not None and (prev["whash"] != prev["hhash"] or prev["shash"] != prev["hhash"]):
+                tags.add("stash-bad-name-dirty")
+            tags.add("stash-bad-name" if not ok else "stash-bad-name-accepted")
         elif k == "pop":
             if ok:
                 tags.add("pop-ok")
@@ -175,6 +196,8 @@ def classify(case, out):
         elif k == "checkout_move":
             if not ok:
                 tags.add("move-refused" if "already on" not in x.get("msg", "").lower() else "move-same-branch")
+                if "uncommitted changes on target" in x.get("msg", "").lower():
+                    tags.add("move-both-dirty-refused")
             elif prev is not None and (prev["whash"] != prev["hhash"] or prev["shash"] != prev["hhash"]):
                 tags.add("move-carry")
             else:
